@@ -161,6 +161,9 @@ class C07(Check):
         "key and payload bytes are seeded; ECDSA signatures are deterministic (RFC 6979 via OpenSSL); "
         "DER lengths of signatures and certificates (70..72 / ~330 bytes) depend on the seeded values, so "
         "the number of byte positions, not the rule, varies by a few executions between seeds",
+        "clock: when the code under test demonstrably reads a clock the harness owns, instants are exact "
+        "(fixed reference instant in 2031); otherwise the reference instant is the real present and "
+        "validity periods begin / end at that second or two hours from it",
         "the root of trust is not an element: its own validity period and self-signature do not "
         "enter the verdict (the statement's iff lists conditions on elements only)",
         "X.509 links between certificates are not restricted to P-256 by the statement; only the "
@@ -182,6 +185,13 @@ class C07(Check):
         self.world = G.V2World("c07")
         self.step = 1
         self._chains = {}
+        # does the code under test read a clock the harness owns?  (see CertImpl.settle_clock)
+        G.set_reference_instant(G.T0_FIXED)
+        doc, pem, _ = self.world.chain(2, "wide-top")
+        self.owned = self.impl.settle_clock(doc, pem, G.T0)
+        if not self.owned:
+            G.set_reference_instant(self.impl.fresh_reference_instant())
+            self.world = G.V2World("c07")
         self.hangs = multiprocessing.get_context("fork").Value("i", 0)
         # disagreements on the recorded / documented samples are violations like any other
         self.pre_violations = self.calibrate()
@@ -273,6 +283,10 @@ class C07(Check):
         for label, doc, now in probes:
             if only is not None and only != (what, label):
                 continue
+            if not self.owned:
+                if now != inside:
+                    continue          # other instants cannot be visited without owning the clock
+                now = self.impl.present()
             exp = R.v2_validate(doc, root_element(root_pem), now)["quote"]
             if label == "intact" and presume is not None and exp[0] != presume:
                 raise HarnessError("calibration %s/%s: reference verifier says %r"
@@ -291,7 +305,9 @@ class C07(Check):
 
     # ---------------------------------------------------------------------------------
     def bounds(self):
-        return {"calibration_samples": list(getattr(self, "calibration_samples", [])), "x509_depth": "1..3", "window_nesting": 2, "clock_points_per_certificate": 6,
+        return {"clock": "owned (fixed reference instant, exact boundary probes)" if self.owned else
+                "not owned: real present as reference instant, two-hour margins",
+                "calibration_samples": list(getattr(self, "calibration_samples", [])), "x509_depth": "1..3", "window_nesting": 2, "clock_points_per_certificate": 6,
                 "bit_positions": "every bit of every byte" if self.thorough else "one bit in every byte",
                 "flip_chains": len(self.flip_chains()),
                 "reparenting": "single moves, permutations, all signed_by functions (quick: on the 4-element chain only)",
@@ -430,6 +446,8 @@ class C07(Check):
     def run_clock(self, case, stats, vs):
         doc, root_pem, meta = self.chain(case["depth"], case["nest"])
         self.genuine(doc, root_pem, G.T0, "genuine", stats, vs)
+        if not self.owned:
+            return self.run_clock_present(case, stats, vs)
         for tz in ZONES:
             for name, nb, na in meta["x509"]:
                 for lab, now in (("nb-1s", nb - SEC), ("nb", nb), ("nb+1s", nb + SEC),
@@ -448,6 +466,25 @@ class C07(Check):
                              ("valid-in-7h", (G.T0 + 7 * HOUR, G.T0 + 10 * DAY))):
                 d2, rp2, _ = self.chain(case["depth"], case["nest"], leaf_window=win)
                 self.evaluate(d2, rp2, G.T0, "clock:leaf-" + lab, stats, vs, tz=tz)
+
+    def run_clock_present(self, case, stats, vs):
+        """Clock part when the clock of the code under test cannot be owned: the real present is the
+        reference instant (a second that began after the tree under test was imported); each X.509
+        element in turn gets a validity period that began at that very second, began / begins /
+        ended / ends two hours from it; the three process time zones are put in force for real."""
+        depth = case["depth"]
+        t0 = G.T0
+        for tz in ZONES:
+            for lvl in range(depth):
+                for lab, win in (("began-this-second", (t0, t0 + 10 * DAY)),
+                                 ("began-2h-ago", (t0 - 2 * HOUR, t0 + 10 * DAY)),
+                                 ("begins-in-2h", (t0 + 2 * HOUR, t0 + 10 * DAY)),
+                                 ("ends-in-2h", (t0 - 10 * DAY, t0 + 2 * HOUR)),
+                                 ("ended-2h-ago", (t0 - 10 * DAY, t0 - 2 * HOUR)),
+                                 ("ended-10d-ago", (t0 - 20 * DAY, t0 - 10 * DAY)),
+                                 ("begins-in-10d", (t0 + 10 * DAY, t0 + 20 * DAY))):
+                    d2, rp2, _ = self.chain(depth, case["nest"], windows={lvl: win})
+                    self.evaluate(d2, rp2, G.T0, "clock:present:" + lab, stats, vs, tz=tz)
 
     # ---- (b) lengths -----------------------------------------------------------------------
     def run_auth(self, case, stats, vs):
@@ -924,7 +961,13 @@ class C07(Check):
         case = {"kind": "one", "doc": doc, "root_pem": root_pem, "now": iso(now), "label": label,
                 "open": open_, "target": target, "tz": tz}
         reason = v2_structure(doc)
+        if not self.owned:
+            if now != G.T0:
+                return None           # only the present can be visited
+            before = self.impl.present()
         got = self.impl.run_v2(doc, root_pem, now, guarded=reason is not None, tz=tz)
+        if not self.owned:
+            now = self.impl.present()
         if got[0] == "budget":
             with self.hangs.get_lock():
                 self.hangs.value += 1
@@ -939,6 +982,11 @@ class C07(Check):
                                     {"outcome": got[0]}, {"error": reason}, "structure"))
             return None
         exp = R.v2_validate(doc, root_element(root_pem), now)
+        if not self.owned:
+            # the code ran somewhere between `before` and `now`: the reference must not depend on where
+            exp0 = R.v2_validate(doc, root_element(root_pem), before)
+            if any(exp0[t][:2] != exp[t][:2] for t in exp):
+                open_ = True
         ev = exp[target]
         kinds = {e["name"]: e["type"] for e in doc["elements"]}
         stats.observe((label, tuple((exp[t][0], kinds.get(exp[t][1]) if exp[t][0] != R.OK else None)
